@@ -94,7 +94,7 @@ func OptionsKept(p *core.Prog, r *core.Report) {
 		var opt *ssa.Parameter
 		for _, prm := range f.Params {
 			if pt, ok := prm.Type().Underlying().(*types.Pointer); ok {
-				if nm := core.NamedOf(pt.Elem()); nm != nil && nm.Obj().Name() == "SchemaValidatorOptions" {
+				if nm := core.NamedOf(pt.Elem()); nm != nil && core.KnownTypeName(nm) == "SchemaValidatorOptions" {
 					opt = prm
 				}
 			}
@@ -107,7 +107,7 @@ func OptionsKept(p *core.Prog, r *core.Report) {
 			if !ok || !al.Heap {
 				return
 			}
-			if nm := core.NamedOf(al.Type().Underlying().(*types.Pointer).Elem()); nm == nil || nm.Obj().Name() != "SchemaValidatorOptions" {
+			if nm := core.NamedOf(al.Type().Underlying().(*types.Pointer).Elem()); nm == nil || core.KnownTypeName(nm) != "SchemaValidatorOptions" {
 				return
 			}
 			n++
